@@ -50,12 +50,17 @@ def items(tier, seed):
     # D. other radices
     for (t, e, r) in OTHER_RADIX:
         sc(t, e, r, 'v_%s' % t, 1, 0.6)
-    # input radix above ten (open class input_radix_above_ten for positive exponents): every value of 8-bit reps,
-    # and the two witnesses on 64-bit significands
-    for (t, e, r) in [('i8', 20, 16), ('u8', 3, 16), ('i8', -3, 16), ('u8', 14, 12)]:
+    # input radix above ten (class input_radix_above_ten, repaired: the headroom test of descale is made for the input
+    # radix): every value of 8-bit reps, the two witnesses on 64-bit significands, and the lattices of the wide reps
+    # (they contain the powers of two around max/radix and max/10, and the most negative values)
+    for (t, e, r) in [('i8', 20, 16), ('u8', 3, 16), ('i8', -3, 16), ('u8', 14, 12), ('i8', 30, 36)]:
         sc(t, e, r, 'v_%s' % t, 1, 0.8)
     out.append((0.1, 'tc::sc_one<std::uint64_t, 1, 16>(std::uint64_t(1) << 60, 30);'))
     out.append((0.1, 'tc::sc_one<std::int64_t, 1, 16>(std::int64_t(1) << 59, 30);'))
+    for (t, e, r) in [('i64', 1, 16), ('i64', 3, 16), ('u64', 2, 36), ('i64', 2, 1000), ('i32', 9, 16), ('i128', 2, 12),
+                      ('u128', 1, 16), ('i64', -2, 16), ('u64', -3, 12),
+                      (rnd.choice(['i64', 'u64', 'i128', 'u128']), rnd.randint(1, 12), rnd.choice([11, 12, 16, 20, 36, 100]))]:
+        sc(t, e, r, 'v_%s' % t, 1 if thorough else 3, 1.0)
     if thorough:
         for _ in range(12):
             t = rnd.choice(['i8', 'u8', 'i16', 'i32', 'i64'])
@@ -74,7 +79,7 @@ def items(tier, seed):
     for t in ('i16', 'u16', 'i32', 'u32', 'i64', 'u64', 'i128', 'u128'):
         for e in [-70, -1, 0, 70, rnd.randint(-70, 70)]:
             out.append((0.2, 'tc::fix_sweep<scaled_integer<%s, power<%d>>>(v_%s);' % (CT[t], e, t)))
-    for (t, e, r) in OTHER_RADIX[:6]:
+    for (t, e, r) in OTHER_RADIX[:6] + [('i64', 3, 16), ('u64', 2, 36), ('i8', 20, 16), ('u8', 14, 12), ('i32', -2, 16)]:
         out.append((0.1, 'tc::fix_sweep<scaled_integer<%s, power<%d, %d>>>(v_%s);' % (CT[t], e, r, t)))
     for t in CT:
         out.append((0.1, 'tc::fix_sweep<%s>(v_%s);' % (CT[t], t)))
